@@ -136,7 +136,10 @@ impl CompileError for PreprocessError {
 
 /// Manage files that are returned from the external include handler
 struct FileLoader<'a> {
-    file_name_remap: HashMap<String, FileId>,
+    /// Files found for (name in the directive, name of the including file)
+    file_name_remap: HashMap<(String, String), FileId>,
+    /// Files by the name the include handler resolved them to
+    real_name_remap: HashMap<String, FileId>,
     pragma_once_files: HashSet<FileId>,
     source_manager: &'a mut SourceManager,
     include_handler: &'a mut dyn IncludeHandler,
@@ -155,6 +158,7 @@ impl<'a> FileLoader<'a> {
     ) -> Self {
         FileLoader {
             file_name_remap: HashMap::new(),
+            real_name_remap: HashMap::new(),
             pragma_once_files: HashSet::new(),
             source_manager,
             include_handler,
@@ -167,23 +171,35 @@ impl<'a> FileLoader<'a> {
         parent_file: Option<FileId>,
     ) -> Result<InputFile, IncludeError> {
         let parent_name = match parent_file {
-            Some(id) => self.source_manager.get_file_name(id),
-            None => "",
+            Some(id) => self.source_manager.get_file_name(id).to_string(),
+            None => String::new(),
         };
 
-        let id = match self.file_name_remap.get(file_name) {
+        // The same name may refer to different files when included from different places
+        let key = (file_name.to_string(), parent_name);
+
+        let id = match self.file_name_remap.get(&key) {
             Some(id) => *id,
             None => {
                 // Load the file
-                let file_data = self.include_handler.load(file_name, parent_name)?;
+                let file_data = self.include_handler.load(file_name, &key.1)?;
 
-                // Add it to the source manager
-                let id = self
-                    .source_manager
-                    .add_file(FileName(file_data.real_name), file_data.contents);
+                // The same file may be reached with different names - it is still the same file
+                let id = match self.real_name_remap.get(&file_data.real_name) {
+                    Some(id) => *id,
+                    None => {
+                        // Add it to the source manager
+                        let id = self.source_manager.add_file(
+                            FileName(file_data.real_name.clone()),
+                            file_data.contents,
+                        );
+                        self.real_name_remap.insert(file_data.real_name, id);
+                        id
+                    }
+                };
 
                 // Remember the file id
-                self.file_name_remap.insert(file_name.to_string(), id);
+                self.file_name_remap.insert(key, id);
 
                 id
             }
